@@ -3,10 +3,8 @@
    These are definitions in a module WITHOUT CONSTANTS on purpose: TLC pre-evaluates and caches zero-argument
    constant definitions only for modules that declare no CONSTANTS (SpecProcessor.processConstantDefns), and an
    uncached 8k-element sequence is re-evaluated on every reference (measured 0.3 s each).
-   checks/c03.py overwrites the staged copy of this file for each TLC process. *)
+   checks/c03.py overwrites the staged copy of this file for each run. *)
 EXTENDS Json
 Tier == 1      \* 1 quick, 2 thorough
-Part == 0      \* this TLC process handles the programs with index % Parts = Part
-Parts == 1
 TypesCasesIn == ndJsonDeserialize("cases.ndjson")      \* (model-checking step only; the generation step writes this file)
 =============================================================================
